@@ -3124,7 +3124,10 @@ class _Simu(_IObserver, _params.Updatable, ABC):
         return "Unspecified."
 
     def Results_Reshape_values(
-        self, values: _types.FloatArray, nodeValues: bool
+        self,
+        values: _types.FloatArray,
+        nodeValues: bool,
+        onNodes: Optional[bool] = None,
     ) -> _types.FloatArray:
         """Reshapes input values based on whether they are stored at nodes or elements.
 
@@ -3134,6 +3137,10 @@ class _Simu(_IObserver, _params.Updatable, ABC):
             Input values to reshape.
         nodeValues : bool
             If True, the output will represent values at nodes; if False, values on elements will be derived.
+        onNodes : bool, optional
+            Whether `values` are stored at nodes (True) or at elements (False). By default None: guessed from the
+            size of `values`, which is ambiguous whenever the number of nodes and of elements (times the number
+            of components) divide one another.
 
         Returns
         -------
@@ -3150,6 +3157,26 @@ class _Simu(_IObserver, _params.Updatable, ABC):
         Ne = mesh.Ne
 
         is1d = values.ndim == 1
+
+        if onNodes is not None:
+            if onNodes:
+                assert values.size % Nn == 0, "values must be stored at nodes"
+                if nodeValues:
+                    return values.ravel() if is1d else values.reshape(Nn, -1)
+                values_n = values.reshape(Nn, -1)
+                values_e = np.concatenate(
+                    [
+                        np.mean(values_n[groupElem.connect], axis=1)
+                        for groupElem in mesh.Get_list_groupElem(mesh.dim)
+                    ]
+                )
+                return values_e.reshape(-1 if is1d else (Ne, -1))
+            else:
+                assert values.size % Ne == 0, "values must be stored at elements"
+                if not nodeValues:
+                    return values.reshape(-1 if is1d else (Ne, -1))
+                values_n = self.mesh.Get_Node_Values(values.reshape(Ne, -1))
+                return values_n.reshape(-1 if is1d else (Nn, -1))
 
         if nodeValues:
             shape = -1 if is1d else (Nn, -1)
